@@ -331,3 +331,10 @@ WCD = "WholeComposeDec.v"
 for pid, items in (("C07", [(WCP, "ppar128_enc_composed"), (WCP, "ppar64_enc_composed"), (WCD, "ppar128_dec_composed"), (WCD, "ppar64_dec_composed")]),):
     if pid in PLAN:
         add_imports(pid, WHI + ["ModelCipher", "ModelCtr", "ProofsCtr", "ProofsApiCtr", "WholeProc", "WholeCtr", "WholeCtrModel", "WholePar", "WholeContracts", "WholeKeyTweak", "WholeCompose", "WholeComposePar", "WholeComposeDec"]); PLAN[pid] += items
+
+# capstone: set_key specification then the block function's own code = the paper's cipher (WholeEndToEnd.v)
+WEE = "WholeEndToEnd.v"
+for pid, items in (("C01", [(WEE, "c_set_key_then_encrypt128_spec"), (WEE, "c_set_key_then_encrypt64_spec")]),
+                   ("C03", [(WEE, "c_set_key_then_decrypt128_spec"), (WEE, "c_set_key_then_decrypt64_spec")])):
+    if pid in PLAN:
+        add_imports(pid, WHI + ["ModelCipher", "ProofsSkinny", "WholeProc", "WholeCtr", "WholeCtrModel", "WholeKeyTweak", "WholeCompose", "WholeEndToEnd"]); PLAN[pid] += items
